@@ -12,6 +12,9 @@ Derived relations, checked on the REAL outputs independently of the oracle:
 All calls use expect='many_to_many' (the cardinality argument is C11's subject).
 Scope: join_blocks(tier, heavy=True) - same enumerator as C09 with a smaller budget (four joins
 per case); every subset of unmatched rows on each side occurs (3 x 3 rows over >= 3 key values).
+The '*-hashcollide' blocks use int keys that differ but have equal Python hashes (-1 / -2 and
+0 / 2**61-1), alone and inside composite keys: an unmatched row whose key merely collides with a
+key of the other side must still be padded, not paired (class suffix ':hash-colliding-keys').
 """
 from relational_common import *  # noqa
 
@@ -64,9 +67,9 @@ def evaluate(case):
 
     g_left = g_full = g_inner = g_swapped = None
     if left is not None:
-        g_left = check_join_output(PID, 'join', left, s.want_left(), s.names(), fails, d_left)
+        g_left = check_join_output(PID, 'join', left, s.want_left(), s.names(), fails, d_left, tag=hc_tag(case))
     if full is not None:
-        g_full = check_join_output(PID, 'full_join', full, s.want_full(), s.names(), fails, d_full)
+        g_full = check_join_output(PID, 'full_join', full, s.want_full(), s.names(), fails, d_full, tag=hc_tag(case))
     try:
         g_inner = rows_of(inner) if inner is not None else None
         g_swapped = rows_of(swapped) if swapped is not None else None
